@@ -238,11 +238,16 @@ theorem repl_guards :
 /-- the REPL really has those dot commands (the guard statement is not vacuous) -/
 example : ∀ n ∈ hostOnlyDotCommands, n ∈ CallGraph.replDotCommands.map (·.1) := by decide +kernel
 
-/-- Start-up. Functions called by `init` functions / package-level initialisers cannot
-leave a function value behind, except the hand-justified ones (Spec.Prims.startupDiscards);
-function values MENTIONED by start-up code are roots (edges from node INIT). -/
-theorem startup_calls_leave_no_function_values :
-    ∀ c ∈ CallGraph.startupCalls, c.2 = true → c.1 ∈ startupDiscards := by decide +kernel
+/-- Start-up. A function called by an `init` function / package-level initialiser that could
+create function values (something reachable from it mentions a function in value position)
+is either a root of every configuration — so whatever it leaves behind is covered by the
+certificates — or on the hand-justified list Spec.Prims.startupDiscards. Function values
+MENTIONED by start-up code itself are roots through node INIT. -/
+theorem startup_calls_covered :
+    ∀ c ∈ CallGraph.startupCalls, c.2.1 = true →
+      (c.1 ∈ startupDiscards ∧ c.2.2.2 = false)
+      ∨ (c.2.2.1 ∈ CallGraph.rootsBare ∧ c.2.2.1 ∈ CallGraph.rootsStd ∧ c.2.2.1 ∈ CallGraph.rootsCli) := by
+  decide +kernel
 
 /-- No other way to obtain a callable value: package unsafe is used only by the two known
 data-pointer helpers, and nothing asserts an interface value to a function type
